@@ -7,7 +7,12 @@
 //     maxq suffix = how the processor is built: none = (exporter, options) constructor, r = (exporter, options, runtime
 //       options) constructor, f / g = the factory's Create with two / three arguments, a = (logs only) the constructor
 //       taking the three numbers.  They must all configure the same processor.
-//     flushers: one char per ForceFlush caller: 'i' = indefinite timeout (max), digit k = timeout of k * schedule_delay
+//     flushers: one char per ForceFlush caller: 'i' = indefinite timeout (max), digit k = timeout of k * schedule_delay,
+//       'h' = half a schedule_delay (the wait is clipped to the caller's timeout), 'u' = one microsecond
+//     nshut[:<chars>]: one char per Shutdown caller: 'i' = Shutdown() (max), digit k = k * schedule_delay / 4 (0 = zero),
+//       'u' = one microsecond
+//     records with an odd id are obtained through Processor::MakeRecordable() (and, for spans, announced with OnStart)
+//       instead of being built by the caller: both are pass-throughs that must not change anything
 //     exporter script: chars 's' (Export succeeds) / 'f' (Export reports failure), cycled; 'F' = ForceFlush fails; 'S' = Shutdown fails
 //     actions: t<i> run thread i | t<i>! run with a spurious weak-CAS failure | o<i> timer of thread i's timed wait expires
 //              | w<i> spurious wake-up of thread i's wait
@@ -164,7 +169,8 @@ static std::string handle(const std::vector<std::string> &t)
     ctor = ops[0][0].back();
     ops[0][0].pop_back();
   }
-  // <nshut> or <nshut>:<one char per Shutdown caller>: 'i' = Shutdown() (no timeout), digit k = Shutdown(k * schedule_delay / 4)
+  // <nshut> or <nshut>:<one char per Shutdown caller>: 'i' = Shutdown() (no timeout), digit k = Shutdown(k * schedule_delay / 4),
+  // 'u' = Shutdown(1 us)
   std::string shspec;
   {
     auto colon = ops[0][5].find(':');
@@ -179,11 +185,11 @@ static std::string handle(const std::vector<std::string> &t)
     return "bad-op";
   if (!shspec.empty() && shspec.size() != nshut) return "bad-op";
   for (char c : shspec)
-    if (c != 'i' && !(c >= '0' && c <= '9')) return "bad-op";
+    if (c != 'i' && c != 'u' && !(c >= '0' && c <= '9')) return "bad-op";
   std::string fl = ops[0][4] == "-" ? "" : ops[0][4];
   std::string xs = ops[0][6] == "-" ? "" : ops[0][6];
   for (char c : fl)
-    if (c != 'i' && !(c >= '0' && c <= '9')) return "bad-op";
+    if (c != 'i' && c != 'h' && c != 'u' && !(c >= '0' && c <= '9')) return "bad-op";
   if (maxq == 0 || maxb == 0 || maxb > maxq || nprod > 6 || fl.size() > 4 || nshut > 3) return "bad-op";
   ExpState est;
   for (char c : xs)
@@ -269,7 +275,18 @@ static std::string handle(const std::vector<std::string> &t)
       {
         detsched::point("begin", nullptr);
         int id = next_id++;
-        std::unique_ptr<sdkx::Recordable> r(new Rec(id));
+        std::unique_ptr<sdkx::Recordable> r;
+        if (id % 2)
+        {
+          r = proc->MakeRecordable();  // the exporter's recordable, handed through by the processor
+          if (!r) { detsched::note("MAKERECORDABLE-NULL"); r.reset(new Rec(id)); }
+          static_cast<Rec *>(r.get())->id = id;
+#ifndef BATCH_LOGS
+          proc->OnStart(*r, opentelemetry::trace::SpanContext::GetInvalid());
+#endif
+        }
+        else
+          r.reset(new Rec(id));
         detsched::name_value(reinterpret_cast<uint64_t>(r.get()), "r" + std::to_string(id));
         detsched::note("onend-begin r" + std::to_string(id));
         proc->ONEND(std::move(r));
@@ -283,8 +300,10 @@ static std::string handle(const std::vector<std::string> &t)
     detsched::spawn([&, c] {
       detsched::point("begin", nullptr);
       detsched::note("flush-begin");
-      auto to = c == 'i' ? (std::chrono::microseconds::max)()
-                         : std::chrono::duration_cast<std::chrono::microseconds>(delay * (c - '0'));
+      auto to = c == 'i'   ? (std::chrono::microseconds::max)()
+                : c == 'h' ? std::chrono::duration_cast<std::chrono::microseconds>(delay) / 2
+                : c == 'u' ? std::chrono::microseconds(1)
+                           : std::chrono::duration_cast<std::chrono::microseconds>(delay * (c - '0'));
       bool r  = proc->ForceFlush(to);
       detsched::note(std::string("flush-ret ") + (r ? "1" : "0"));
     });
@@ -296,8 +315,9 @@ static std::string handle(const std::vector<std::string> &t)
       detsched::point("begin", nullptr);
       detsched::note("shutdown-begin");
       // a finite timeout bounds how long the caller is prepared to wait; it must not make Shutdown lose what was queued
-      bool r = c == 'i' ? proc->Shutdown()
-                        : proc->Shutdown(std::chrono::duration_cast<std::chrono::microseconds>(delay * (c - '0')) / 4);
+      bool r = c == 'i'   ? proc->Shutdown()
+               : c == 'u' ? proc->Shutdown(std::chrono::microseconds(1))
+                          : proc->Shutdown(std::chrono::duration_cast<std::chrono::microseconds>(delay * (c - '0')) / 4);
       detsched::note(std::string("shutdown-ret ") + (r ? "1" : "0"));
     });
   }
